@@ -940,8 +940,8 @@ impl<'a> Gen<'a> {
         }
         let k = (*self.r.pick(&[1u8, 2, 2, 3, 3, 3, 4, 4, 5, 6, 8])).min(self.ev.len() as u8);
         let mut n = *self.r.pick(&[3u16, 15, 127, 255, 256, 257, 257, 300, 600]);
-        if self.r.chance(1, 150) {
-            // 16-bit counters: expensive, so rare and with a short window
+        if self.p.long_pm > 2 && self.r.chance(1, 150) {
+            // 16-bit counters: expensive, so rare, with a short window, and only in the thorough tier
             n = *self.r.pick(&[65535u16, 65534, 65533]);
         }
         let k = if n > 1000 { k.min(3) } else { k };
@@ -964,8 +964,8 @@ impl<'a> Gen<'a> {
                 15 => 1024,
                 16 => 768,
                 17 | 18 => {
-                    // 16-bit wrap: expensive (every shadow instance gets the same number of resets), so rare
-                    if self.r.chance(1, 40) {
+                    // 16-bit wrap: expensive (every shadow instance gets the same number of resets), so rare and thorough tier only
+                    if self.p.long_pm > 2 && self.r.chance(1, 40) {
                         65535 + self.r.below(3) as u32
                     } else {
                         256 * (1 + self.r.below(4) as u32)
